@@ -28,7 +28,7 @@ def gen_cfg(rng, kind=None):
         nx, ny, nz = int(rng.integers(1, 4)), int(rng.integers(1, 4)), int(rng.integers(1, 3))
     cfg = dict(kind=kind, dim=dim, nx=nx, ny=ny, nz=nz,
                unit=[float(rng.choice([1.0, 0.5, 2.0])), float(rng.choice([1.0, 0.7])), float(rng.choice([1.0, 1.5]))],
-               oseed=int(rng.integers(1 << 30)))
+               oseed=int(rng.integers(1 << 30)), layout=str(rng.choice(["C", "C", "C", "F", "T"])))
     r = lambda *a: rng.choice(*a)  # noqa
     if kind in ("AssembleStiffness", "AssembleMass", "AssemblePoisson", "AssembleGeneral"):
         cfg.update(bc=str(r(["none", "left", "corner", "random"])), bcdiag=[None, 1.0, 0.0][int(rng.integers(0, 3))],
@@ -126,6 +126,18 @@ def build(pym, cfg):
     E = dict(name=kind, lin_tol=1e-9, iterative=False, cfg=cfg)
 
     def finish(mod, ins, outs, set_inputs, make_seeds):
+        lay = cfg.get("layout", "C")
+        if lay != "C":
+            # the caller's multi-dimensional arrays may be Fortran-ordered or transposed views (legal input of any module)
+            inner = set_inputs
+
+            def set_inputs(seed):
+                r = inner(seed)
+                for sg in ins:
+                    st = sg.state
+                    if isinstance(st, np.ndarray) and st.ndim >= 2 and st.size > 1:
+                        sg.state = np.asfortranarray(st) if lay == "F" else np.ascontiguousarray(st.T).T
+                return r
         E.update(mod=mod, ins=ins, outs=outs, set_inputs=set_inputs, make_seeds=make_seeds)
         return E
 
